@@ -30,12 +30,16 @@ TxOK(o, e) ==
   /\ HdrOK(o.res_headers, e.res_headers)
   \* bodies: length and digest of the bytes handed to the body callbacks = the entity (decoded payload), coding recognised
   /\ o.qbody = BodyDigest(e.req_body) /\ o.sbody = BodyDigest(e.res_body) /\ o.res_ce = CodingNumber(e.res_coding)
+\* completed: the execution ran to its end and produced a dump; an execution in which the recorder died (sanitizer abort, crash) has no
+\* result and is neither faithful nor the same as anything
 Fidelity == LET r == Rows[k]  e == Expected(Exchange(r.i, r.n)) IN
+            /\ r.completed
             /\ Len(r.txs) = r.n
             /\ \A j \in 1..r.n : TxOK(r.txs[j], e[j])
 \* the dump without the multi-packet-head indicator
 Strip(t) == IF t.dead THEN t ELSE [t EXCEPT !.mph = FALSE]
 Invariance == LET r == Rows[k]  w == Rows[r.ref] IN
+              /\ r.completed
               /\ Len(r.txs) = Len(w.txs)
               /\ (r.samearr => r.pipelined = w.pipelined)      \* the pipelining indicator depends on the arrival order of the two directions (C04), not on the cuts
               /\ \A j \in 1..Len(w.txs) : Strip(r.txs[j]) = Strip(w.txs[j])
